@@ -23,6 +23,7 @@ pub mod header {
     pub const HOST: HeaderName = HeaderName(5);
     pub const CONTENT_RANGE: HeaderName = HeaderName(6);
     pub const EXPECT: HeaderName = HeaderName(7);
+    pub const ALLOW: HeaderName = HeaderName(8);
     impl HeaderName {
         pub fn as_str(&self) -> &'static str {
             match self.0 {
@@ -33,6 +34,7 @@ pub mod header {
                 5 => "host",
                 6 => "content-range",
                 7 => "expect",
+                8 => "allow",
                 _ => "x-other",
             }
         }
@@ -56,7 +58,7 @@ pub mod header {
     }
     fn name_of(s: &str) -> HeaderName {
         let mut id = 1u8;
-        while id <= 7 {
+        while id <= 8 {
             if eq_ignore_case(s, HeaderName(id).as_str()) {
                 return HeaderName(id);
             }
@@ -95,6 +97,14 @@ pub mod header {
     }
 
     #[derive(Debug)]
+    pub struct InvalidHeaderValue;
+    impl std::fmt::Display for InvalidHeaderValue {
+        fn fmt(&self, f: &mut std::fmt::Formatter<'_>) -> std::fmt::Result {
+            f.write_str("failed to parse header value")
+        }
+    }
+    impl std::error::Error for InvalidHeaderValue {}
+    #[derive(Debug)]
     pub struct ToStrError;
     impl std::fmt::Display for ToStrError {
         fn fmt(&self, f: &mut std::fmt::Formatter<'_>) -> std::fmt::Result {
@@ -122,6 +132,22 @@ pub mod header {
             }
             v.len = i;
             v
+        }
+        /// "If the argument contains invalid header value characters, an error is returned. Only
+        /// visible ASCII characters (32-127) are permitted."
+        pub fn from_str(s: &str) -> Result<Self, InvalidHeaderValue> {
+            let b = s.as_bytes();
+            if b.len() > VALUE_CAP {
+                panic!("verification shim: header value capacity exceeded");
+            }
+            let mut i = 0;
+            while i < b.len() {
+                if !(b[i] == b'\t' || (b[i] >= 32 && b[i] < 127)) {
+                    return Err(InvalidHeaderValue);
+                }
+                i += 1;
+            }
+            Ok(Self::from_bytes_unchecked(b))
         }
         pub fn as_bytes(&self) -> &[u8] {
             &self.buf[..self.len]
@@ -234,6 +260,38 @@ impl Method {
     pub const GET: Method = Method(0);
     pub const POST: Method = Method(1);
     pub const PUT: Method = Method(2);
+    pub const DELETE: Method = Method(3);
+    pub const HEAD: Method = Method(4);
+    pub const OPTIONS: Method = Method(5);
+    pub const CONNECT: Method = Method(6);
+    pub const PATCH: Method = Method(7);
+    pub const TRACE: Method = Method(8);
+    /// shim-only: an extension method (the real crate builds them with `Method::from_bytes`)
+    pub const PURGE: Method = Method(9);
+    pub fn as_str(&self) -> &str {
+        match self.0 {
+            0 => "GET",
+            1 => "POST",
+            2 => "PUT",
+            3 => "DELETE",
+            4 => "HEAD",
+            5 => "OPTIONS",
+            6 => "CONNECT",
+            7 => "PATCH",
+            8 => "TRACE",
+            _ => "PURGE",
+        }
+    }
+}
+impl AsRef<str> for Method {
+    fn as_ref(&self) -> &str {
+        self.as_str()
+    }
+}
+impl std::fmt::Display for Method {
+    fn fmt(&self, f: &mut std::fmt::Formatter<'_>) -> std::fmt::Result {
+        f.write_str(self.as_str())
+    }
 }
 /// Request target. Contract kept: `query()` is the part after the first `?` (without it), if any.
 pub const QUERY_CAP: usize = 8;
